@@ -9,7 +9,10 @@ T=$(mktemp -d /tmp/pmut.XXXXXX)
 git -C /repo worktree add -q --detach $T/repo HEAD || { echo "cannot add worktree"; exit 2; }
 trap 'git -C /repo worktree remove --force $T/repo 2>/dev/null; rm -rf $T' EXIT
 if ! git -C $T/repo apply "$P"; then echo "mutant=$(basename $(dirname $P))/$(basename $P) patch does not apply"; exit 2; fi
-export VERIF_REPO=$T/repo VERIF_BUILD=$T/build VERIF_OUT=$T/out
+# build and output directories live under /verif/.build (C18 runs with a private tmpfs on /tmp)
+W=/verif/.build/pmut-$(basename $T)
+trap 'git -C /repo worktree remove --force $T/repo 2>/dev/null; rm -rf $T $W' EXIT
+export VERIF_REPO=$T/repo VERIF_BUILD=$W/build VERIF_OUT=$W/out
 mkdir -p $VERIF_BUILD $VERIF_OUT
 for id in "$@"; do
   out=$(/verif/check $id ${TIER:-quick} 2>&1); rc=$?
